@@ -1,7 +1,7 @@
 from tools.driver import Unit
 UNITS = [
   Unit("enc_template", ["C15"], "lib/vorbisenc.c", enforce="get_setup_template", harness="h_enc_template.c", entry="h_enc_template",
-       unwindset=["get_setup_template.0:14", "get_setup_template.1:19"], reach=4, timeout=1500, shards=8, objbits=13,
+       unwindset=["get_setup_template.0:14", "get_setup_template.1:19"], reach=4, timeout=1800, shards=8, objbits=13, tier="thorough",
        assumed=["the real static template tables of vorbisenc.c / modes/*.h are the data (17 templates, <= 12 mappings each): loops fully unwound with unwinding assertions"],
        note="template look-up for all (channels, rate, request incl. NaN/inf/negative, quality-or-bitrate): no template, or a base setting whose integer part is and is+1 index inside every per-quality table"),
 ]
